@@ -103,6 +103,7 @@ func viewsSuite() hlib.Suite {
 										data := views.ResultData{Error: e, LogFilePath: lp, SuccessfulIterationDurations: snap(s, du), FailedIterationDurations: snap(f, du),
 											IterationsStarted: startedN, Duration: el, SuccessfulIterationCount: s, Iterations: total, FailedIterationCount: f, DroppedIterationCount: d, Failed: failed}
 										input := fmt.Sprintf("result successful=%d failed=%d dropped=%d stat=%s elapsed=%s error#%d failed=%v log=%q", s, f, d, du, el, ei, failed, lp)
+										r.SampleCase(input)
 										vc := v.Result(data)
 										for _, tty := range []bool{false, true} {
 											r.Eval()
@@ -155,6 +156,7 @@ func viewsSuite() hlib.Suite {
 							for _, period := range elapsed {
 								pd := views.ProgressData{SuccessfulIterationDurationsForPeriod: snap(s, du), Duration: el, SuccessfulIterationCount: s, DroppedIterationCount: d, FailedIterationCount: f, Period: period}
 								input := fmt.Sprintf("progress successful=%d failed=%d dropped=%d stat=%s elapsed=%s period=%s", s, f, d, du, el, period)
+								r.SampleCase(input)
 								pc := v.Progress(pd)
 								for _, tty := range []bool{false, true} {
 									r.Eval()
@@ -218,6 +220,7 @@ func resultSuite() hlib.Suite {
 								res.AddError(errors.New("teardown failed"))
 							}
 							input := fmt.Sprintf("successful=%d failed=%d dropped=%d error=%v max-failures-rate=%d", s, f, d, withErr, mfr)
+							r.SampleCase(input)
 							res.SnapshotProgress(time.Second)
 							pd := res.Progress().VerifData()
 							if pd.SuccessfulIterationCount != s || pd.FailedIterationCount != f || pd.DroppedIterationCount != d || pd.SuccessfulIterationDurationsForPeriod.Count != s {
